@@ -215,6 +215,6 @@ class Multiplication:
       s = segment_or_segment_name
       sn = segment_or_segment_name.name
     else:
-      s = self.segment(segment_or_segment_name)
+      s = self.try_get_segment(segment_or_segment_name)
       sn = segment_or_segment_name
     return s, sn
